@@ -63,9 +63,15 @@ def check_merge(db, chk, rule: str) -> None:
     TS, DUR = T.col(K, "ts"), T.col(K, "dur")
     END = T.add(TS, DUR)
     ts_t, end_t = R.col("ts"), R.col("end")
+    # whatever the algorithm: the merged set is computed from ALL rows of the input (callers take the span of the merged set for the span of the input)
+    restricted = sorted({T.show(c_[1])[:120] for t_ in (ts_t, end_t) for c_ in T.subterms(t_)
+                         if isinstance(c_, tuple) and len(c_) == 3 and c_[0] == K and isinstance(c_[1], tuple) and c_[1] != T.TRUE and c_[1][:1] in (("cmp",), ("and",), ("or",), ("not",), ("in",))})
+    if restricted:
+        chk.ob(rule, "the merged set is computed from every row of the input (no row is dropped before merging)", False, where, found=restricted, accepted="all rows of kernel_df",
+               why="the callers read the first start and the last end of the merged set as the span of the INPUT (kernel_time, idle_time): a zero-length activity at either end of the rank's activity that is dropped first shrinks the span")
     for nm, t in (("ts", ts_t), ("end", end_t)):
         if T.has_opaque(t) or t[0] != "agg":
-            chk.ob(rule, f"merged {nm} is a per-group aggregate", None if T.has_opaque(t) else False, where, found=T.show(t)[:300],
+            chk.ob(rule, f"merged {nm} is a per-group aggregate", None, where, found=T.show(t)[:300],          # (bounds computed some other way - a numpy reduction, a loop - are not held against the template: not understood)
                    accepted="agg(<fn>, <column>, by group)", why="the merged interval bounds must be aggregated per overlap group")
             return
     S = ts_t[3]
